@@ -65,7 +65,7 @@ RefBinaryT(op, order, v, w) ==
 RefApplyN(f, arg, nv) ==
   CASE f = "each"    -> [nv EXCEPT !.ts = {RefScale(v) : v \in @}]
     [] f = "relabel" -> [nv EXCEPT !.ts = {RefRelabel(v, arg[1], arg[2]) : v \in @}]
-    [] f = "expo"    -> [nv EXCEPT !.exp = @ + 1]
+    [] f = "norm"    -> [ts |-> {RefScale(v) : v \in nv.ts}, exp |-> nv.exp + 1]   \* rescale every tensor, collect into exp
 RefCombine(nv, nw) == [ts |-> nv.ts \cup nw.ts, exp |-> nv.exp + nw.exp]
 
 (* ------------------------------------------------------------------ 2 -- *)
@@ -77,19 +77,23 @@ RefCombine(nv, nw) == [ts |-> nv.ts \cup nw.ts, exp |-> nv.exp + nw.exp]
 (*  sharers = <<[kind, before, after]>>  every object sharing storage with *)
 (*            the receiver (a copy, a virtual view, a second owner ...)    *)
 (*  arrays  = <<[before, after]>>  raw bytes of every pre-existing array   *)
-(*  plain   = [exc, st, stw, dq] result of the plain spelling: exception    *)
+(*  plain   = [exc, st, stw, stv, dq] result of the plain spelling          *)
 (*            name or "", structural fingerprint (st: tensor by tensor,     *)
 (*            stw: what survives a change of gauge), distance to itself (0) *)
 (*  inpl    = [exc, st, dq, self, orig, arrays]  result of the in-place    *)
 (*            spelling on a copy (dq: distance to the plain result),       *)
 (*            whether it returned its receiver, and the original + its     *)
 (*            arrays around that call                                      *)
-(*  perm    = <<[exc, st, dq, same_in, level]>>  plain spelling on         *)
+(*  perm    = <<[exc, st, dq, same_in, level, pure]>>  plain spelling on   *)
 (*            receivers whose tensors store their axes in another order;   *)
 (*            level "tensor": compared tensor by tensor; "denotation":     *)
 (*            (only for results with a gauge freedom) same class / outer   *)
-(*            labels / tags and same contracted value                      *)
-(*  randomised, docself, hasinpl, gauge : flags of the recipe              *)
+(*            labels / tags and same contracted value; "value" (only for   *)
+(*            mode "reorder": the tensors of the receiver inserted in      *)
+(*            another order) same class / outer labels / union of tags and *)
+(*            same contracted value; "skipped" (reorder, recipes whose     *)
+(*            value follows the insertion order: truncation sweeps)        *)
+(*  randomised, docself, hasinpl, gauge, orderdep : flags of the recipe    *)
 
 Untouched(p)     == p.before = p.after
 AllUntouched(ps) == \A p \in Range(ps) : Untouched(p)
@@ -98,7 +102,8 @@ AllUntouched(ps) == \A p \in Range(ps) : Untouched(p)
 Agree(a, b) == /\ a.exc = b.exc
                /\ a.exc = "" => (a.st = b.st /\ b.dq = 0)
 
-PlainPure(r)        == Untouched(r.recv) /\ AllUntouched(r.args)
+\* (also around the calls on the re-stored receivers / arguments: p.pure)
+PlainPure(r)        == Untouched(r.recv) /\ AllUntouched(r.args) /\ \A p \in Range(r.perm) : p.pure
 SharersUntouched(r) == AllUntouched(r.sharers)
 ArraysUntouched(r)  == AllUntouched(r.arrays)
 PlainIsInplaceOnCopy(r) == r.hasinpl => Agree(r.plain, r.inpl)
@@ -108,7 +113,10 @@ InplaceReturnsSelf(r) == (r.hasinpl /\ r.docself /\ r.inpl.exc = "") => r.inpl.s
 AgreePerm(r, p)     == /\ r.plain.exc = p.exc
                        /\ p.exc = "" =>
                             /\ p.dq = 0
-                            /\ IF p.level = "denotation" THEN r.gauge /\ p.st = r.plain.stw ELSE p.st = r.plain.st
+                            /\ CASE p.level = "denotation" -> r.gauge /\ p.st = r.plain.stw
+                                 [] p.level = "value"      -> p.mode = "reorder" /\ p.st = r.plain.stv
+                                 [] p.level = "skipped"    -> p.mode = "reorder" /\ r.orderdep
+                                 [] OTHER                  -> p.st = r.plain.st
 PermInvariant(r)    == \A p \in Range(r.perm) :
                           /\ p.same_in                      \* the re-stored receiver has the same labelled content
                           /\ r.randomised \/ AgreePerm(r, p)
